@@ -59,6 +59,15 @@ func (e *kvElection) heartbeatLoop(ctx context.Context) {
 				}
 			}
 
+			// The health check may have taken a while (up to its 100ms
+			// time-out). If the instance was demoted meanwhile, e.revision now
+			// holds the follower-side view of somebody else's record, and
+			// refreshing "with the current revision" would overwrite the new
+			// leader's record with our old identity.
+			if !e.IsLeader() {
+				return
+			}
+
 			currentRev := e.revision.Load()
 
 			token := e.Token()
